@@ -2,6 +2,7 @@ import RpylibModel.Basic.Proto
 import RpylibModel.Model.Grid
 import RpylibModel.Model.Cells
 import RpylibModel.Model.Drift
+import RpylibModel.Model.DriftMatrix
 open Rpylib Rpylib.Grid Rpylib.Cells Rpylib.Drift
 
 /-! Line-protocol driver of property C04: executes the definitions of RpylibModel/Model/Drift.lean.
@@ -20,6 +21,9 @@ A mid table is a nested list of triples `a,b,middle(a,b)` (`[]` = arithmetic mea
                                                axis walked = axis (copula margin k >= 1 of a grid with unequal axes)
   muh2 <ax0> <axis> <o> <midtbl> <values>   -> mu_h for those intervals' masses
   varmat <adj> <sigmas>                     -> `<adj·adjᵀ + diag σ² (as coded)> <adj + diag σ² (spec)>`
+  assemble <d> <fv> <outs> <sigmas> <x>     -> `<adj_matrix> <variance_matrix as coded> <adj + diag σ²> <coded symmetric 0/1>
+                                                <x·coded·x>`: `outs` = the results of `vol_adjustment_ij(i, j)` in the order
+                                               `for i in range(d) for j in range(i, d)` (ignored for finite variation)
 -/
 
 def parseTriples (s : String) : Option (List (Rat × Rat × Rat)) := do
@@ -85,6 +89,16 @@ def step (t : List String) : String :=
     | some adj, some sig =>
       showListList showRat (varianceMatrixCoded adj sig) ++ " " ++ showListList showRat (varianceMatrixSpec adj sig)
     | _, _ => "bad-op"
+  | ["assemble", d, fv, outs, sig, x] =>
+    match parseNat? d, parseNat? fv, parseRatList? outs, parseRatList? sig, parseRatList? x with
+    | some d, some fv, some outs, some sig, some x =>
+      if sig.length != d || x.length != d || (fv != 1 && outs.length != d * (d + 1) / 2) then "bad-op" else
+      let adj := assembleAdj d (fv == 1) outs
+      let coded := varianceMatrixOfOutputs d (fv == 1) outs sig
+      showListList showRat adj ++ " " ++ showListList showRat coded ++ " " ++
+        showListList showRat (varianceMatrixSpec adj sig) ++ " " ++ (if isSymmB d coded then "1" else "0") ++ " " ++
+        showRat (quadForm d coded x)
+    | _, _, _, _, _ => "bad-op"
   | _ => "bad-op"
 
 def main : IO Unit := runStateless step
